@@ -20,6 +20,8 @@ FUNCS = ['boolean::fill_queue::fill_queue', 'boolean::connect_edges::order_event
 
 def cut_reason(v):
     """why the iterator value v may not yield every element of its source; None when nothing suspicious is found"""
+    if sym.consecutive_pairs_source(v) is not None:
+        return None     # zip(iter(P), P[1..] / skip(1)): all pairs of neighbours, i.e. all edges of a ring
     for x in sym.walk(v):
         if x[0] in ('call', 'pcall'):
             if CUTTING.search(x[1]):
